@@ -552,8 +552,13 @@ func run(id, tier string) int {
 		cov["samples"] = []any{}
 	}
 	b, _ := json.MarshalIndent(ev, "", " ")
-	_ = os.MkdirAll(filepath.Join(verifDir, "evidence"), 0o755)
-	if err := os.WriteFile(filepath.Join(verifDir, "evidence", id+".json"), append(b, '\n'), 0o644); err != nil {
+	evDir := filepath.Join(verifDir, "evidence")
+	if alt := os.Getenv("VERIF_REPO"); alt != "" && alt != "/repo" {
+		// audit runs against a scratch copy must not overwrite the evidence of runs against /repo
+		evDir = filepath.Join(os.TempDir(), "vcheck-audit-evidence")
+	}
+	_ = os.MkdirAll(evDir, 0o755)
+	if err := os.WriteFile(filepath.Join(evDir, id+".json"), append(b, '\n'), 0o644); err != nil {
 		inconclusive = append(inconclusive, "cannot write evidence: "+err.Error())
 	}
 
